@@ -271,7 +271,7 @@ def run(ctx):
                  ["part:organic", f"centres:{min(res['centres'], 3)}",
                   f"ez:{min(res['ez'], 2)}"])
 
-    ctx.hyp("c14-organic", S.tapes(700).map(gen1), check1,
+    ctx.hyp("c14-organic", S.mapped(700, gen1), check1,
             ctx.scale(1600, 40000), ddmin=False)
 
     from vp import rdtable
